@@ -183,6 +183,51 @@ _FLIP = {'Gt': 'Lt', 'Ge': 'Le'}
 _NEG = {'Lt': 'Ge', 'Le': 'Gt', 'Gt': 'Le', 'Ge': 'Lt', 'Eq': 'Ne', 'Ne': 'Eq'}
 
 
+def reach_guards(prog, root, prefix, depth=2):
+    """Functions reachable from `root` through calls that stay inside the path prefix (the private helpers of one type), each with the guard
+    sets under which it is entered: fn path -> list of (guards at the call sites along one chain, parameter substitution). The root maps to
+    one empty entry. Used to read a decision table off a function *and the helpers parts of it were moved into*: the condition of a site in
+    a helper is the helper's own guard set joined with the call site's, the helper's parameters replaced by the actual arguments."""
+    out = {root.path: [([], {})]}
+    frontier = [(root, [], {})]
+    for _ in range(depth):
+        nxt = []
+        for f, gs, sub in frontier:
+            for c in f.calls():
+                if f.blocks[c.bb].get('cleanup'):
+                    continue
+                g = prog.fns.get(c.resolved or '')
+                if g is None or g is root or not g.path.startswith(prefix) or '{closure' in g.path or g.path == f.path:
+                    continue
+                here = [_subst_args(x, sub) for x in guard_set(prog, f, c.bb)]
+                from helpers import vexpr as _vx
+                actual = {'arg%d' % (i + 1): _subst_args(_vx(f, a), sub) for i, a in enumerate(c.args)}
+                entry = (gs + here, actual)
+                out.setdefault(g.path, []).append(entry)
+                nxt.append((g, gs + here, actual))
+        frontier = nxt
+    return out
+
+
+def _subst_args(text, sub):
+    if not sub:
+        return text
+    return re.sub(r'\barg(\d+)\b', lambda m: sub.get('arg' + m.group(1), m.group(0)) if sub.get('arg' + m.group(1)) != 'arg' + m.group(1) else m.group(0), text)
+
+
+def family_sites(prog, root, prefix, blocks_of, depth=2):
+    """(fn, bb, guards) for the blocks `blocks_of(fn)` of the root and of the helpers reachable from it inside `prefix`; guards is the
+    joined, substituted guard set for one way of reaching the block (one entry per call chain)."""
+    out = []
+    for path, entries in reach_guards(prog, root, prefix, depth).items():
+        f = prog.fns[path]
+        for bb in blocks_of(f):
+            own = guard_set(prog, f, bb)
+            for gs, sub in entries:
+                out.append((f, bb, sorted(set(gs) | {_subst_args(x, sub) for x in own})))
+    return out
+
+
 def canon(g):
     """canonical spelling of a comparison guard: no negated comparison, no Gt/Ge (so `a < b`, `!(a >= b)` and `b > a` read alike)"""
     neg = False
@@ -345,6 +390,31 @@ def _norm_elem(g, fn):
     return t.replace('tuple_(', 'tuple(')
 
 
+def _abstract(g, keep=2):
+    """A condition with the operands of its calls kept to `keep` levels: what is tested and how stays, where a deeply nested operand comes
+    from does not (the provenance of values is decided by the semantic rules of the property, not by the condition ledger)."""
+    out = []
+    depth = 0
+    skip_from = None
+    for ch in g:
+        if ch == '(':
+            depth += 1
+            if depth == keep + 1 and skip_from is None:
+                out.append('(\u2026')
+                skip_from = depth
+                continue
+        if ch == ')':
+            if skip_from is not None and depth == skip_from:
+                skip_from = None
+                out.append(')')
+                depth -= 1
+                continue
+            depth -= 1
+        if skip_from is None:
+            out.append(ch)
+    return ''.join(out)
+
+
 # `for` loop bookkeeping (the iterator yielded another element): a closure handed to for_each has no such condition
 _LOOP_HAS_NEXT = re.compile(r'^next\(into_iter\(.*\)\) is Some$')
 
@@ -366,13 +436,13 @@ def _effective(sites):
         out = []
         for c in cs:
             for up in chains(c['fn'], depth - 1, seen | {fn}):
-                out.append(frozenset(canon(_norm_elem(g, c['fn'])) for g in c['guards'] if not _LOOP_HAS_NEXT.match(g)) | up)
+                out.append(frozenset(_abstract(canon(_norm_elem(g, c['fn']))) for g in c['guards'] if not _LOOP_HAS_NEXT.match(g)) | up)
         return out
     ms = []
     for k, v in sites.items():
         if v.get('kind') in ('E', 'R'):
             # one entry per distinct effective condition set of the site (how many call chains lead to the same set does not matter)
-            own = frozenset(canon(_norm_elem(g, v['fn'])) for g in v['guards'] if not _LOOP_HAS_NEXT.match(g))
+            own = frozenset(_abstract(canon(_norm_elem(g, v['fn']))) for g in v['guards'] if not _LOOP_HAS_NEXT.match(g))
             for eff in sorted({tuple(sorted(own | up)) for up in chains(v['fn'], 10, frozenset())}):
-                ms.append((_norm_elem(v['label'], v['fn']), eff, k))
+                ms.append((_abstract(_norm_elem(v['label'], v['fn'])), eff, k))
     return sorted(ms)
